@@ -265,6 +265,7 @@ func (s *Store[H]) DeleteRange(ctx context.Context, from, to uint64) error {
 	if err != nil {
 		return err
 	}
+	simYield("store:DeleteRange:after-sync")
 
 	// load current head and tail
 	head, err := s.Head(ctx)
